@@ -778,6 +778,15 @@ func (h *handler) handleClose(ctx context.Context) {
 		h.logger.Debug("Subscriber closed", nil)
 	case <-ctx.Done():
 		// we are closing subscriber just when entire router is closed
+		select {
+		case <-h.routersCloseCh:
+			// Run cancels the context right after the router started closing: when both are ready,
+			// select may pick this branch, and the subscriber still has to be closed
+			if err := h.subscriber.Close(); err != nil {
+				h.logger.Error("Failed to close subscriber", err, nil)
+			}
+		default:
+		}
 	}
 	h.stopFn()
 }
